@@ -25,6 +25,7 @@ import EPV.Gen.Noh2D
 import EPV.Gen.Noh2CogD
 import EPV.Spec.Euler1D
 import EPV.Lemmas.Euler1Db
+import EPV.Lemmas.HydroRobust
 import EPV.Tactics
 
 set_option linter.all false
@@ -118,12 +119,11 @@ theorem noh2_leaves : Noh2.okLeaves = [1] := rfl
 theorem noh2_mass (p : Noh2.P) (r t : ℝ) (hr : r ≠ 0) (ht : t < 1) :
     massRes (Noh2.L1.density p) (Noh2.L1.velocity p) (p.geometry - 1) r t = 0 := by
   have h1 : 0 < (1 : ℝ) - t := by linarith
-  have hp := Real.rpow_pos_of_pos h1 p.geometry
   unfold massRes dr dt
-  rw [(Noh2.L1.density_hasDerivAt_t p r t h1 hp.ne').deriv, (Noh2.L1.density_hasDerivAt_r p r t).deriv,
-    (Noh2.L1.velocity_hasDerivAt_r p r t).deriv]
+  epv_hydro_rw_derivs [Noh2.L1.density_hasDerivAt_t p r t, Noh2.L1.density_hasDerivAt_r p r t,
+    Noh2.L1.velocity_hasDerivAt_r p r t]
   simp only [epv_deriv, epv_leaf]
-  generalize ((1 : ℝ) - t) ^ p.geometry = q at hp ⊢
+  epv_hydro_gen_rpow
   have h1' := h1.ne'
   field_simp
   ring
@@ -132,8 +132,8 @@ theorem noh2_momentum (p : Noh2.P) (r t : ℝ) (ht : t < 1) :
     momResP (Noh2.L1.density p) (Noh2.L1.velocity p) (Noh2.L1.pressure p) r t = 0 := by
   have h1 : 0 < (1 : ℝ) - t := by linarith
   unfold momResP dr dt
-  rw [(Noh2.L1.velocity_hasDerivAt_t p r t h1.ne').deriv, (Noh2.L1.velocity_hasDerivAt_r p r t).deriv,
-    (Noh2.L1.pressure_hasDerivAt_r p r t).deriv]
+  epv_hydro_rw_derivs [Noh2.L1.velocity_hasDerivAt_t p r t, Noh2.L1.velocity_hasDerivAt_r p r t,
+    Noh2.L1.pressure_hasDerivAt_r p r t]
   simp only [epv_deriv, epv_leaf]
   have h1' := h1.ne'
   field_simp
@@ -143,15 +143,12 @@ theorem noh2_energy (p : Noh2.P) (r t : ℝ) (hr : r ≠ 0) (ht : t < 1) (hρ : 
     energyResE (Noh2.L1.density p) (Noh2.L1.velocity p) (Noh2.L1.pressure p)
       (Noh2.L1.specific_internal_energy p) (p.geometry - 1) r t = 0 := by
   have h1 : 0 < (1 : ℝ) - t := by linarith
-  have hp := Real.rpow_pos_of_pos h1 p.geometry
-  have hq := Real.rpow_pos_of_pos h1 ((p.gamma - 1) * p.geometry)
   unfold energyResE dr dt
-  rw [(Noh2.L1.specific_internal_energy_hasDerivAt_t p r t h1 hq.ne').deriv,
-    (Noh2.L1.specific_internal_energy_hasDerivAt_r p r t).deriv,
-    (Noh2.L1.velocity_hasDerivAt_r p r t).deriv]
+  epv_hydro_rw_derivs [Noh2.L1.specific_internal_energy_hasDerivAt_t p r t,
+    Noh2.L1.specific_internal_energy_hasDerivAt_r p r t,
+    Noh2.L1.velocity_hasDerivAt_r p r t]
   simp only [epv_deriv, epv_leaf]
-  generalize ((1 : ℝ) - t) ^ p.geometry = q at hp ⊢
-  generalize ((1 : ℝ) - t) ^ ((p.gamma - 1) * p.geometry) = q' at hq ⊢
+  epv_hydro_gen_rpow
   have h1' := h1.ne'
   field_simp
   ring
@@ -181,10 +178,10 @@ theorem noh2cog_L5_mass (p : Noh2Cog.P) (r t : ℝ) (hr : r ≠ 0) (ht : t < 1) 
   have hdr : deriv (fun x => Noh2Cog.L5.density p x t) r = 0 :=
     deriv_of_const (Noh2Cog.L5.density p 1 t) (fun x => by simp only [epv_leaf, pow_zero]) r
   unfold massRes dr dt
-  rw [(Noh2Cog.L5.density_hasDerivAt_t p r t h1).deriv, hdr, (Noh2Cog.L5.velocity_hasDerivAt_r p r t).deriv]
+  epv_hydro_rw_derivs [Noh2Cog.L5.density_hasDerivAt_t p r t, Noh2Cog.L5.velocity_hasDerivAt_r p r t]
+  rw [hdr]
   simp only [epv_deriv, epv_leaf]
-  have hq := Real.rpow_pos_of_pos h1 (((0 : ℝ) - (p.geometry - 1)) - 1)
-  generalize ((1 : ℝ) - t) ^ (((0 : ℝ) - (p.geometry - 1)) - 1) = q at hq ⊢
+  epv_hydro_gen_rpow
   have h1' := h1.ne'
   field_simp
   ring
@@ -196,7 +193,8 @@ theorem noh2cog_L5_momentum (p : Noh2Cog.P) (r t : ℝ) (ht : t < 1) :
   have hdr : deriv (fun x => Noh2Cog.L5.pressure p x t) r = 0 :=
     deriv_of_const (Noh2Cog.L5.pressure p 1 t) (fun x => by simp only [epv_leaf, pow_zero]) r
   unfold momResP dr dt
-  rw [(Noh2Cog.L5.velocity_hasDerivAt_t p r t h1.ne').deriv, (Noh2Cog.L5.velocity_hasDerivAt_r p r t).deriv, hdr]
+  epv_hydro_rw_derivs [Noh2Cog.L5.velocity_hasDerivAt_t p r t, Noh2Cog.L5.velocity_hasDerivAt_r p r t]
+  rw [hdr]
   simp only [epv_deriv, epv_leaf]
   have h1' := h1.ne'
   field_simp
@@ -208,20 +206,15 @@ theorem noh2cog_L5_energy (p : Noh2Cog.P) (r t : ℝ) (hr : r ≠ 0) (ht : t < 1
     energyResE (Noh2Cog.L5.density p) (Noh2Cog.L5.velocity p) (Noh2Cog.L5.pressure p)
       (Noh2Cog.L5.specific_internal_energy p) (p.geometry - 1) r t = 0 := by
   have h1 : 0 < (1 : ℝ) - t := by linarith
-  have hq := Real.rpow_pos_of_pos h1 (((0 : ℝ) - (p.geometry - 1)) - 1)
-  have hq' := Real.rpow_pos_of_pos h1 ((0 : ℝ) - ((p.gamma - 1) * ((p.geometry - 1) + 1)))
-  have hden : ((p.rho0 * (r ^ (0 : ℕ))) * (((1 : ℝ) - t) ^ (((0 : ℝ) - (p.geometry - 1)) - 1))) * 1 ≠ 0 := by
-    simp only [pow_zero, mul_one]
-    exact mul_ne_zero hρ hq.ne'
   have hdr : deriv (fun x => Noh2Cog.L5.specific_internal_energy p x t) r = 0 :=
     deriv_of_const (Noh2Cog.L5.specific_internal_energy p 1 t)
       (fun x => by simp only [epv_leaf, pow_zero, one_pow]) r
   unfold energyResE dr dt
-  rw [(Noh2Cog.L5.specific_internal_energy_hasDerivAt_t p r t h1 hden).deriv, hdr,
-    (Noh2Cog.L5.velocity_hasDerivAt_r p r t).deriv]
+  epv_hydro_rw_derivs [Noh2Cog.L5.specific_internal_energy_hasDerivAt_t p r t,
+    Noh2Cog.L5.velocity_hasDerivAt_r p r t]
+  rw [hdr]
   simp only [epv_deriv, epv_leaf]
-  generalize ((1 : ℝ) - t) ^ (((0 : ℝ) - (p.geometry - 1)) - 1) = q at hq ⊢
-  generalize ((1 : ℝ) - t) ^ ((0 : ℝ) - ((p.gamma - 1) * ((p.geometry - 1) + 1))) = q' at hq' ⊢
+  epv_hydro_gen_rpow
   have h1' := h1.ne'
   field_simp
   ring
@@ -233,10 +226,10 @@ theorem noh2cog_L7_mass (p : Noh2Cog.P) (r t : ℝ) (hr : r ≠ 0) (ht : t < 1) 
   have hdr : deriv (fun x => Noh2Cog.L7.density p x t) r = 0 :=
     deriv_of_const (Noh2Cog.L7.density p 1 t) (fun x => by simp only [epv_leaf, pow_zero]) r
   unfold massRes dr dt
-  rw [(Noh2Cog.L7.density_hasDerivAt_t p r t h1).deriv, hdr, (Noh2Cog.L7.velocity_hasDerivAt_r p r t).deriv]
+  epv_hydro_rw_derivs [Noh2Cog.L7.density_hasDerivAt_t p r t, Noh2Cog.L7.velocity_hasDerivAt_r p r t]
+  rw [hdr]
   simp only [epv_deriv, epv_leaf]
-  have hq := Real.rpow_pos_of_pos h1 (((0 : ℝ) - (p.geometry - 1)) - 1)
-  generalize ((1 : ℝ) - t) ^ (((0 : ℝ) - (p.geometry - 1)) - 1) = q at hq ⊢
+  epv_hydro_gen_rpow
   have h1' := h1.ne'
   field_simp
   ring
@@ -248,7 +241,8 @@ theorem noh2cog_L7_momentum (p : Noh2Cog.P) (r t : ℝ) (ht : t < 1) :
   have hdr : deriv (fun x => Noh2Cog.L7.pressure p x t) r = 0 :=
     deriv_of_const (Noh2Cog.L7.pressure p 1 t) (fun x => by simp only [epv_leaf, pow_zero]) r
   unfold momResP dr dt
-  rw [(Noh2Cog.L7.velocity_hasDerivAt_t p r t h1.ne').deriv, (Noh2Cog.L7.velocity_hasDerivAt_r p r t).deriv, hdr]
+  epv_hydro_rw_derivs [Noh2Cog.L7.velocity_hasDerivAt_t p r t, Noh2Cog.L7.velocity_hasDerivAt_r p r t]
+  rw [hdr]
   simp only [epv_deriv, epv_leaf]
   have h1' := h1.ne'
   field_simp
@@ -260,20 +254,15 @@ theorem noh2cog_L7_energy (p : Noh2Cog.P) (r t : ℝ) (hr : r ≠ 0) (ht : t < 1
     energyResE (Noh2Cog.L7.density p) (Noh2Cog.L7.velocity p) (Noh2Cog.L7.pressure p)
       (Noh2Cog.L7.specific_internal_energy p) (p.geometry - 1) r t = 0 := by
   have h1 : 0 < (1 : ℝ) - t := by linarith
-  have hq := Real.rpow_pos_of_pos h1 (((0 : ℝ) - (p.geometry - 1)) - 1)
-  have hq' := Real.rpow_pos_of_pos h1 ((0 : ℝ) - ((p.gamma - 1) * ((p.geometry - 1) + 1)))
-  have hden : ((p.rho0 * (r ^ (0 : ℕ))) * (((1 : ℝ) - t) ^ (((0 : ℝ) - (p.geometry - 1)) - 1))) * 1 ≠ 0 := by
-    simp only [pow_zero, mul_one]
-    exact mul_ne_zero hρ hq.ne'
   have hdr : deriv (fun x => Noh2Cog.L7.specific_internal_energy p x t) r = 0 :=
     deriv_of_const (Noh2Cog.L7.specific_internal_energy p 1 t)
       (fun x => by simp only [epv_leaf, pow_zero, one_pow]) r
   unfold energyResE dr dt
-  rw [(Noh2Cog.L7.specific_internal_energy_hasDerivAt_t p r t h1 hden).deriv, hdr,
-    (Noh2Cog.L7.velocity_hasDerivAt_r p r t).deriv]
+  epv_hydro_rw_derivs [Noh2Cog.L7.specific_internal_energy_hasDerivAt_t p r t,
+    Noh2Cog.L7.velocity_hasDerivAt_r p r t]
+  rw [hdr]
   simp only [epv_deriv, epv_leaf]
-  generalize ((1 : ℝ) - t) ^ (((0 : ℝ) - (p.geometry - 1)) - 1) = q at hq ⊢
-  generalize ((1 : ℝ) - t) ^ ((0 : ℝ) - ((p.gamma - 1) * ((p.geometry - 1) + 1))) = q' at hq' ⊢
+  epv_hydro_gen_rpow
   have h1' := h1.ne'
   field_simp
   ring
@@ -285,10 +274,10 @@ theorem noh2cog_L9_mass (p : Noh2Cog.P) (r t : ℝ) (hr : r ≠ 0) (ht : t < 1) 
   have hdr : deriv (fun x => Noh2Cog.L9.density p x t) r = 0 :=
     deriv_of_const (Noh2Cog.L9.density p 1 t) (fun x => by simp only [epv_leaf, pow_zero]) r
   unfold massRes dr dt
-  rw [(Noh2Cog.L9.density_hasDerivAt_t p r t h1).deriv, hdr, (Noh2Cog.L9.velocity_hasDerivAt_r p r t).deriv]
+  epv_hydro_rw_derivs [Noh2Cog.L9.density_hasDerivAt_t p r t, Noh2Cog.L9.velocity_hasDerivAt_r p r t]
+  rw [hdr]
   simp only [epv_deriv, epv_leaf]
-  have hq := Real.rpow_pos_of_pos h1 (((0 : ℝ) - (p.geometry - 1)) - 1)
-  generalize ((1 : ℝ) - t) ^ (((0 : ℝ) - (p.geometry - 1)) - 1) = q at hq ⊢
+  epv_hydro_gen_rpow
   have h1' := h1.ne'
   field_simp
   ring
@@ -300,7 +289,8 @@ theorem noh2cog_L9_momentum (p : Noh2Cog.P) (r t : ℝ) (ht : t < 1) :
   have hdr : deriv (fun x => Noh2Cog.L9.pressure p x t) r = 0 :=
     deriv_of_const (Noh2Cog.L9.pressure p 1 t) (fun x => by simp only [epv_leaf, pow_zero]) r
   unfold momResP dr dt
-  rw [(Noh2Cog.L9.velocity_hasDerivAt_t p r t h1.ne').deriv, (Noh2Cog.L9.velocity_hasDerivAt_r p r t).deriv, hdr]
+  epv_hydro_rw_derivs [Noh2Cog.L9.velocity_hasDerivAt_t p r t, Noh2Cog.L9.velocity_hasDerivAt_r p r t]
+  rw [hdr]
   simp only [epv_deriv, epv_leaf]
   have h1' := h1.ne'
   field_simp
@@ -312,20 +302,15 @@ theorem noh2cog_L9_energy (p : Noh2Cog.P) (r t : ℝ) (hr : r ≠ 0) (ht : t < 1
     energyResE (Noh2Cog.L9.density p) (Noh2Cog.L9.velocity p) (Noh2Cog.L9.pressure p)
       (Noh2Cog.L9.specific_internal_energy p) (p.geometry - 1) r t = 0 := by
   have h1 : 0 < (1 : ℝ) - t := by linarith
-  have hq := Real.rpow_pos_of_pos h1 (((0 : ℝ) - (p.geometry - 1)) - 1)
-  have hq' := Real.rpow_pos_of_pos h1 ((0 : ℝ) - ((p.gamma - 1) * ((p.geometry - 1) + 1)))
-  have hden : ((p.rho0 * (r ^ (0 : ℕ))) * (((1 : ℝ) - t) ^ (((0 : ℝ) - (p.geometry - 1)) - 1))) * 1 ≠ 0 := by
-    simp only [pow_zero, mul_one]
-    exact mul_ne_zero hρ hq.ne'
   have hdr : deriv (fun x => Noh2Cog.L9.specific_internal_energy p x t) r = 0 :=
     deriv_of_const (Noh2Cog.L9.specific_internal_energy p 1 t)
       (fun x => by simp only [epv_leaf, pow_zero, one_pow]) r
   unfold energyResE dr dt
-  rw [(Noh2Cog.L9.specific_internal_energy_hasDerivAt_t p r t h1 hden).deriv, hdr,
-    (Noh2Cog.L9.velocity_hasDerivAt_r p r t).deriv]
+  epv_hydro_rw_derivs [Noh2Cog.L9.specific_internal_energy_hasDerivAt_t p r t,
+    Noh2Cog.L9.velocity_hasDerivAt_r p r t]
+  rw [hdr]
   simp only [epv_deriv, epv_leaf]
-  generalize ((1 : ℝ) - t) ^ (((0 : ℝ) - (p.geometry - 1)) - 1) = q at hq ⊢
-  generalize ((1 : ℝ) - t) ^ ((0 : ℝ) - ((p.gamma - 1) * ((p.geometry - 1) + 1))) = q' at hq' ⊢
+  epv_hydro_gen_rpow
   have h1' := h1.ne'
   field_simp
   ring
